@@ -288,6 +288,10 @@ def gen_eng_large(rng, npairs):
         ops.append("F")
     elif flushed == "mixed":
         ops.insert(rng.range(1, len(ops)), "F")
+    # hundreds of automatic flushes are queued behind these stores; reads that race with them belong to C03 (its known
+    # findings CountDuringFlush / ReadDuringFlushDropsSegmentFlow show here as an a-event matched twice - the sequence
+    # path has no de-duplication - or as missing rows): the sequence query is asked once the flushes are done
+    ops.append("W")
     shards = rng.choice([1, 3])
     line = (f"seq_eng {lk} - {rpn(None)} {hx(TA)} {hx(TB)} {hx('x')} {hx('y')} "
             f"{zones_tok([('LT', ev[TA])], fa)} {zones_tok([('LT', ev[TB])], fb)} {shards}i:{','.join(ops)}")
@@ -396,6 +400,9 @@ def run_engine_case_once(line):
             for op in ops.split(","):
                 if op == "F":
                     e.cmd("FLUSH")
+                    e.cmd("!flushwait")
+                elif op == "W":
+                    # no FLUSH: only wait until the automatic flushes of full memtables are done
                     e.cmd("!flushwait")
                 else:
                     t, i = int(op[1]), int(op[2:])
